@@ -2,6 +2,7 @@
 import MysticVerif.Basic.Proto
 import MysticVerif.Model.Collapse
 import MysticVerif.Model.CollapseApply
+import MysticVerif.Model.CollapseMeasure
 
 namespace MysticVerif.DrvC11
 open MysticVerif MysticVerif.Clps
@@ -123,6 +124,27 @@ partial def pCond : Cond El → String
   | .prim p => s!"(p {p.ty} {p.kw} {pB p.hasMask} {pMaskV p.mask})"
   | .node w cs => "(n " ++ pB w ++ String.join (cs.map fun c => " " ++ pCond c) ++ ")"
 
+def finf : Float := 1.0 / 0.0
+
+def parseNatPair : Val → Option (Nat × Nat)
+  | .list [a, b] => do pure (← a.asNat?, ← b.asNat?)
+  | _ => none
+
+/-- `((tr (k (i j) (i j) ..) ..) (nw (k i i ..) ..))` -/
+def parseMRound : Val → Option MRound
+  | .list [.list (.sym "tr" :: ts), .list (.sym "nw" :: ns)] => do
+      let tr ← ts.mapM fun
+        | .list (k :: ps) => do pure (← k.asNat?, ← ps.mapM parseNatPair)
+        | _ => none
+      let nw ← ns.mapM fun
+        | .list (k :: is) => do pure (← k.asNat?, ← is.mapM Val.asNat?)
+        | _ => none
+      pure { tracking := tr, noweight := nw }
+  | _ => none
+
+def pGroups (groups : Groups) : String :=
+  "(" ++ " ".intercalate (groups.map fun g => s!"({g.1} {pNs g.2})") ++ ")"
+
 def handle : Handler
   | .sym "at" :: args => Id.run do
     let some hist := (kw? args "hist").bind parseRows | return "bad-op"
@@ -185,6 +207,19 @@ def handle : Handler
     let groups := connected ps
     let gs := "(" ++ " ".intercalate (groups.map fun g => s!"({g.1} {pNs g.2})") ++ ")"
     return s!"ok groups={gs} nobridge={pB (noBridge ps)} grown={pB (oneComponentOrder ps)} y={pFs (tieAll groups x)}"
+  | .sym "measure" :: args => Id.run do
+    -- applied CollapseWeight / CollapsePosition collapses: the composed impose_measure constraints of the rounds (in
+    -- execution order: newest first) on one parameter vector; per tracked item the groups of tools.connected on the
+    -- pairs in the real iteration order and the hypotheses of the theorems (noBridge, keyFree)
+    let some npts := (kw? args "npts").bind Val.asNats? | return "bad-op"
+    let some rounds := (kw? args "rounds").bind Val.asList? |>.bind (·.mapM parseMRound) | return "bad-op"
+    let some x := (kw? args "x").bind Val.asFloats? | return "bad-op"
+    let items := rounds.map fun r => r.tracking.map fun kv =>
+      s!"({kv.1} {pGroups (connected kv.2)} {pB (noBridge kv.2)} {pB (keyFree (connected kv.2))})"
+    let its := "(" ++ " ".intercalate (items.map pL) ++ ")"
+    match applyRounds finf npts rounds x with
+    | some y => return s!"ok y={pFs y} items={its}"
+    | none => return s!"err index"
   | _ => "bad-op"
 
 end MysticVerif.DrvC11
